@@ -229,8 +229,11 @@ class Check(FormulaCheck):
         rec.sample({'n': 1000, 'radix': 10, 'expected_text': '1000'})
 
     def c_roman(self, spec, rec):
-        for n in range(spec['lo'], spec['hi']):
-            for form in range(5):
+        # shuffled: a result that depends on what this process evaluated before (a poisoned memo) shows as a wrong numeral
+        order = list(range(spec['lo'], spec['hi']))
+        self.rng(spec).shuffle(order)
+        for n in order:
+            for form in self.rng(spec, n).sample(range(5), 5):
                 r = self.ev('ROMAN(v_n,v_f)', v_n=n, v_f=form)
                 ok = isinstance(r, str) and not self.is_err(r) and r != '' and all(c in ROMANV for c in r) and roman_value(r) == n
                 self.expect('C17/ROMAN-form-%d-does-not-denote-n' % form, ok, n=n, form=form, got=r)
